@@ -24,10 +24,10 @@ func scenarios(tier string) []engine.Scenario {
 	var scs []engine.Scenario
 	chains := []chainT{tinyChain(), mixedChain(), bigChain()}
 	seqDepth, qpDepth, terDepth, gauDepth := 4, 3, 3, 3
-	momentsReads := 4096
+	momentsReads, lvlDepth := 4096, 2
 	if thorough {
 		seqDepth, qpDepth, terDepth, gauDepth = 6, 5, 6, 5
-		momentsReads = 1 << 16
+		momentsReads, lvlDepth = 1<<16, 3
 	}
 	for _, ch := range chains {
 		scs = append(scs, uniformAnswersScenario(ch))
@@ -65,7 +65,10 @@ func scenarios(tier string) []engine.Scenario {
 		}
 	}
 	scs = append(scs, gaussianBigScenario(), gaussianReadAndAddScenario(), gaussianWideScenario())
-	scs = append(scs, prngScenario(), samplerReproScenario(), crpScenario(), expandScenario())
+	scs = append(scs, prngScenario(), prngKeyBufferScenario(), prngReusedBufferScenario(), samplerReproScenario(), crpScenario(), expandScenario())
+	for _, ch := range []chainT{tinyChain(), mixedChain()} {
+		scs = append(scs, constructionLevelScenario(ch, lvlDepth))
+	}
 	return scs
 }
 
@@ -108,7 +111,16 @@ func main() {
 			for _, o := range gauViewOps {
 				e = append(e, "gaussian-montgomery-view-op="+o)
 			}
-			e = append(e, "ternary-seq-montgomery=true", "ternary-seq-montgomery=false")
+			e = append(e, "ternary-seq-montgomery=true", "ternary-seq-montgomery=false", "construction-level=raised", "construction-level=lowered", "construction-level=same",
+				"prng-reused-buffer=2", "prng-reused-buffer=4")
+			for _, k := range levelKinds(tinyChain()) {
+				e = append(e, "construction-level-kind="+k.name)
+			}
+			for _, mu := range keyMutations {
+				for _, w := range keyMutationTimes {
+					e = append(e, "prng-key-buffer="+mu+"/"+w)
+				}
+			}
 			for k := 0; k < 4; k++ {
 				e = append(e, fmt.Sprintf("uniform-rejections=%d", k))
 			}
